@@ -2399,3 +2399,93 @@ mod tests {
         assert_eq!(res, Err(OperationError::ResourceLimit));
     }
 }
+
+/// Hooks for the out-of-tree /verif machinery (feature `verif-hooks`, off by default).
+/// Gives an external harness access to the private filter representation: construction of
+/// every term kind (including Stw/Enw), resolution *without* optimisation, and the two
+/// optimisers as separate steps.
+#[cfg(feature = "verif-hooks")]
+pub mod verif {
+    use super::*;
+
+    /// Mirror of the private `FilterComp`.
+    #[derive(Clone, Debug)]
+    pub enum HFC {
+        Eq(Attribute, PartialValue),
+        Cnt(Attribute, PartialValue),
+        Stw(Attribute, PartialValue),
+        Enw(Attribute, PartialValue),
+        Pres(Attribute),
+        LessThan(Attribute, PartialValue),
+        Or(Vec<HFC>),
+        And(Vec<HFC>),
+        Inclusion(Vec<HFC>),
+        AndNot(Box<HFC>),
+        SelfUuid,
+        Invalid(Attribute),
+    }
+
+    fn to_comp(h: HFC) -> FilterComp {
+        match h {
+            HFC::Eq(a, v) => FilterComp::Eq(a, v),
+            HFC::Cnt(a, v) => FilterComp::Cnt(a, v),
+            HFC::Stw(a, v) => FilterComp::Stw(a, v),
+            HFC::Enw(a, v) => FilterComp::Enw(a, v),
+            HFC::Pres(a) => FilterComp::Pres(a),
+            HFC::LessThan(a, v) => FilterComp::LessThan(a, v),
+            HFC::Or(l) => FilterComp::Or(l.into_iter().map(to_comp).collect()),
+            HFC::And(l) => FilterComp::And(l.into_iter().map(to_comp).collect()),
+            HFC::Inclusion(l) => FilterComp::Inclusion(l.into_iter().map(to_comp).collect()),
+            HFC::AndNot(b) => FilterComp::AndNot(Box::new(to_comp(*b))),
+            HFC::SelfUuid => FilterComp::SelfUuid,
+            HFC::Invalid(a) => FilterComp::Invalid(a),
+        }
+    }
+
+    /// An unvalidated filter with exactly this content (no hidden-entry wrapper).
+    pub fn filter_invalid(h: HFC) -> Filter<FilterInvalid> {
+        Filter {
+            state: FilterInvalid { inner: to_comp(h) },
+        }
+    }
+
+    /// As the `cfg(test)` helper `into_valid`: skip schema validation.
+    pub fn force_valid(f: Filter<FilterInvalid>) -> Filter<FilterValid> {
+        Filter {
+            state: FilterValid {
+                inner: f.state.inner,
+            },
+        }
+    }
+
+    /// Resolve without running any optimiser.
+    pub fn resolve_raw(
+        f: &Filter<FilterValid>,
+        ev: &Identity,
+        idxmeta: Option<&IdxMeta>,
+    ) -> Option<Filter<FilterValidResolved>> {
+        let inner = match idxmeta {
+            Some(idx) => FilterResolved::resolve_idx(f.state.inner.clone(), ev, &idx.idxkeys),
+            None => FilterResolved::resolve_no_idx(f.state.inner.clone(), ev),
+        }?;
+        Some(Filter {
+            state: FilterValidResolved { inner },
+        })
+    }
+
+    pub fn optimise(f: &Filter<FilterValidResolved>) -> Filter<FilterValidResolved> {
+        Filter {
+            state: FilterValidResolved {
+                inner: f.state.inner.optimise(),
+            },
+        }
+    }
+
+    pub fn fast_optimise(f: &Filter<FilterValidResolved>) -> Filter<FilterValidResolved> {
+        Filter {
+            state: FilterValidResolved {
+                inner: f.state.inner.clone().fast_optimise(),
+            },
+        }
+    }
+}
